@@ -21,6 +21,7 @@ import (
 	"github.com/KafScale/platform/internal/verif/xstate"
 	"github.com/KafScale/platform/pkg/acl"
 	"github.com/KafScale/platform/pkg/broker"
+	metadatapb "github.com/KafScale/platform/pkg/gen/metadata"
 	"github.com/KafScale/platform/pkg/metadata"
 	"github.com/KafScale/platform/pkg/protocol"
 	"github.com/twmb/franz-go/pkg/kmsg"
@@ -158,7 +159,9 @@ func c24GroupNeed(atom string) func(*c24World) []c24Need {
 	return func(*c24World) []c24Need { return []c24Need{{Kind: "group", Name: c24G, Atom: atom}} }
 }
 
-func c24AdminNeed(*c24World) []c24Need { return []c24Need{{Kind: "cluster", Name: "cluster", Atom: "admin"}} }
+func c24AdminNeed(*c24World) []c24Need {
+	return []c24Need{{Kind: "cluster", Name: "cluster", Atom: "admin"}}
+}
 
 func c24NoNeed(*c24World) []c24Need { return nil }
 
@@ -534,7 +537,9 @@ func (w *c24World) Enabled() []int {
 }
 
 // snapshot returns the observable broker state as scope-prefixed key/value pairs.
-func (w *c24World) snapshot() map[string]string {
+// canon=false: exact (used by the oracle, compared within one replay only);
+// canon=true: consumer groups rendered without the random member ids (used to merge states).
+func (w *c24World) snapshot(canon bool) map[string]string {
 	s := map[string]string{}
 	ctx := context.Background()
 	meta, err := w.store.Metadata(ctx, nil)
@@ -579,8 +584,12 @@ func (w *c24World) snapshot() map[string]string {
 		panic("HARNESS-ERROR c24 snapshot groups: " + err.Error())
 	}
 	for _, g := range groups {
+		if canon {
+			s["group/"+g.GetGroupId()+"/state"] = w.renderGroup(g)
+			continue
+		}
 		b, _ := proto.MarshalOptions{Deterministic: true}.Marshal(g)
-		s["group/"+g.GetGroupId()+"/state"] = w.normalise(string(b))
+		s["group/"+g.GetGroupId()+"/state"] = hex.EncodeToString(b)
 	}
 	offs, err := w.store.ListConsumerOffsets(ctx)
 	if err != nil {
@@ -593,16 +602,26 @@ func (w *c24World) snapshot() map[string]string {
 	return s
 }
 
-// normalise replaces the random member ids by their order of appearance.
-func (w *c24World) normalise(s string) string {
+// renderGroup describes a stored group without the random member ids: the leader by order
+// of appearance, the members as a sorted list of their id-free descriptions.
+func (w *c24World) renderGroup(g *metadatapb.ConsumerGroup) string {
+	leader := g.GetLeader()
 	for i, id := range w.ids {
-		s = strings.ReplaceAll(s, id, fmt.Sprintf("<member%d>", i+1))
+		if id == leader {
+			leader = fmt.Sprintf("<member%d>", i+1)
+		}
 	}
-	return hex.EncodeToString([]byte(s))
+	var ms []string
+	for _, m := range g.GetMembers() {
+		b, _ := proto.MarshalOptions{Deterministic: true}.Marshal(m)
+		ms = append(ms, hex.EncodeToString(b))
+	}
+	sort.Strings(ms)
+	return fmt.Sprintf("state=%s type=%s proto=%s leader=%s gen=%d rebalance=%d members=%v", g.GetState(), g.GetProtocolType(), g.GetProtocol(), leader, g.GetGenerationId(), g.GetRebalanceTimeoutMs(), ms)
 }
 
 func (w *c24World) Canon() string {
-	s := w.snapshot()
+	s := w.snapshot(true)
 	keys := make([]string, 0, len(s))
 	for k := range s {
 		keys = append(keys, k)
@@ -756,7 +775,7 @@ func (w *c24World) Apply(ev int) (string, []xstate.Violation) {
 	req := spec.Build(w)
 	needs := spec.Needs(w)
 	ctx, hdr := w.ctxAndHeader(req.Key(), spec.Ver)
-	before := w.snapshot()
+	before := w.snapshot(false)
 	{ // Metadata: a named topic that already exists cannot be created, nothing is needed for it
 		kept := needs[:0:0]
 		for _, n := range needs {
@@ -774,7 +793,7 @@ func (w *c24World) Apply(ev int) (string, []xstate.Violation) {
 		defer func() { panicked = recover() }()
 		out, err = w.h.Handle(ctx, hdr, req)
 	}()
-	after := w.snapshot()
+	after := w.snapshot(false)
 	var resp kmsg.Response
 	var entries []c24Entry
 	decodeErr := ""
@@ -823,11 +842,23 @@ func (w *c24World) Apply(ev int) (string, []xstate.Violation) {
 		}
 		var bad []string
 		for k, cat := range changed {
-			if strings.HasPrefix(k, prefix) { // cluster: prefix "" = everything
-				bad = append(bad, cat+" ("+k+")")
+			if !strings.HasPrefix(k, prefix) { // cluster: prefix "" = everything
+				continue
 			}
+			if parts := strings.Split(k, "/"); len(parts) >= 3 && parts[0] == "topic" && parts[2] != "meta" {
+				if c := changed["topic/"+parts[1]+"/meta"]; c == "topic-created" || c == "topic-deleted" {
+					continue // offsets/config of a topic that appeared or vanished: reported once, as the topic
+				}
+			}
+			bad = append(bad, cat+" ("+k+")")
 		}
-		sort.Strings(bad)
+		sort.Slice(bad, func(i, j int) bool {
+			pi, pj := c24CatPriority(bad[i]), c24CatPriority(bad[j])
+			if pi != pj {
+				return pi < pj
+			}
+			return bad[i] < bad[j]
+		})
 		if len(bad) > 0 {
 			cat := bad[0][:strings.Index(bad[0], " (")]
 			viol = append(viol, xstate.Violation{Key: c24Api(spec.Name) + ":" + cat + "-without-permission",
@@ -906,6 +937,15 @@ func (w *c24World) Apply(ev int) (string, []xstate.Violation) {
 	return obs, viol
 }
 
+func c24CatPriority(s string) int {
+	for i, c := range []string{"topic-created", "topic-deleted", "partitions-changed", "records-written", "offset-committed", "group-changed", "config-changed"} {
+		if strings.HasPrefix(s, c+" ") {
+			return i
+		}
+	}
+	return 99
+}
+
 func c24Api(name string) string {
 	if i := strings.IndexAny(name, "[("); i > 0 {
 		return name[:i]
@@ -970,7 +1010,7 @@ func c24Pop(m uint) int {
 func TestVerifC24(t *testing.T) {
 	rep := vh.New(t, "C24")
 	defer rep.Finish()
-	rep.Rule = "case = one request sent as principal alice through the real handler.Handle in a world (alice's permission set, auto-create, topic t / group g existing or not, identity via client.id or via connection principal with a privileged decoy client.id), alone or after a history of earlier requests (BFS over histories, states merged by canonical broker snapshot), judged by comparing full broker snapshots before/after and decoding the reply; signature = (request, which needed permissions are held, reply codes and record bytes, categories of state that changed); non-trivial = alice lacks at least one permission the request needs (the oracle constrains it)"
+	rep.Rule = "case = one request sent as principal alice through the real handler.Handle in a world (alice's permission set, auto-create, topic t / group g existing or not, identity via client.id or via connection principal with a privileged decoy client.id), alone or after a history of earlier requests (BFS over histories, states merged by canonical broker snapshot), judged by comparing full broker snapshots before/after and decoding the reply; signature = (world, request, which needed permissions are held, reply codes and record bytes, categories of state that changed); non-trivial = alice lacks at least one permission the request needs (the oracle constrains it)"
 	rep.Assumptions = []string{
 		"required permission per request type as the broker's allow* calls intend: produce->produce on topic; fetch/list-offsets/offset-for-leader-epoch/describe topic config->fetch on topic; join/sync/heartbeat/leave/offset-commit->group_write; offset-fetch/describe-groups->group_read (list-groups: on all groups); delete-groups->group_admin; alter-configs/create-partitions/create-topics/delete-topics/describe broker config->cluster admin; api-versions/find-coordinator/metadata->none",
 		"Metadata: creating a missing topic is only flagged when alice holds no permission through which she could have created it anyway (admin, or produce/fetch on it - both auto-create)",
@@ -1044,7 +1084,8 @@ func TestVerifC24(t *testing.T) {
 					Found:  func(f xstate.Found[int]) { r.founds = append(r.founds, f) },
 					Transition: func(hist []int, obs []string, _ string, _ bool) {
 						last := obs[len(obs)-1]
-						r.sigs[last] = r.sigs[last] || strings.Contains(last, " UNAUTHORIZED ")
+						sig := cfg.String() + " | " + last
+						r.sigs[sig] = r.sigs[sig] || strings.Contains(last, " UNAUTHORIZED ")
 						if r.sample == nil && len(hist) == 2 && strings.Contains(last, " UNAUTHORIZED ") && !strings.Contains(obs[0], " UNAUTHORIZED ") && strings.Contains(obs[0], "changed[") && !strings.Contains(obs[0], "changed[]") {
 							r.sample = map[string]any{"world": cfg.String(), "history": obs}
 						}
